@@ -583,11 +583,17 @@ func Property() runner.Property {
 				if k.selSvc && !k.double {
 					dst = []ev{{C, "ns", "s1", "x=1"}, {C, "other", "s2", "x=1"}, {C, "ns", "s2", "x=1"}}
 				}
+				// the same selection rule in two namespaces, a matching destination object in each
+				dst2 := []ev{{C, "ns", "p1", "l=1"}, {C, "other", "p4", "l=1"}}
+				if k.selSvc && !k.double {
+					dst2 = []ev{{C, "ns", "s1", "x=1"}, {C, "other", "s1", "x=1"}}
+				}
 				out = append(out,
 					scenario(cfg{Kind: ki, Name: "appear+change-selector", SrcInit: []ev{{C, "ns", "w1", sel1}}, SrcHist: []ev{{U, "ns", "w1", sel2}}, DstHist: dst, Cycles: 2, Mode: "S2", Bound: d}),
 					scenario(cfg{Kind: ki, Name: "two-identical-sources,one-changes", SrcInit: []ev{{C, "ns", "w1", sel1}, {C, "ns", "w2", sel1}}, SrcHist: []ev{{U, "ns", "w2", sel2}}, DstHist: dst, Cycles: 1, Mode: "S2", Bound: d}),
 					scenario(cfg{Kind: ki, Name: "destinations-move-in-and-out", SrcInit: []ev{{C, "ns", "w1", sel1}}, DstHist: moves(k, C, U, D), Cycles: 1, Mode: "S2", Bound: d}),
 					scenario(cfg{Kind: ki, Name: "sole-source-loses-its-selector", SrcInit: []ev{{C, "ns", "w1", sel1}}, SrcHist: []ev{{U, "ns", "w1", ""}}, DstHist: dst, Cycles: 1, Mode: "S2", Bound: d}),
+					scenario(cfg{Kind: ki, Name: "same-rule-in-two-namespaces", SrcInit: []ev{{C, "ns", "w1", sel1}}, SrcHist: []ev{{C, "other", "w2", sel1}}, DstHist: dst2, Cycles: 1, Mode: "S2", Bound: d}),
 					scenario(cfg{Kind: ki, Name: "second-source+disappear", SrcInit: []ev{{C, "ns", "w1", sel1}}, SrcHist: []ev{{C, "ns", "w2", sel2}, {D, "ns", "w1", sel1}}, DstHist: dst, Cycles: 1, Mode: "S2", Bound: d}),
 				)
 			}
